@@ -158,6 +158,12 @@ def run(prog, chk):
     ao = prog.func("Transport._activate_outbound")
     fa = Flow(prog, ao)
     en = [n for (n, c) in fa.nodes_with_call(name="self._expect_packet") if unparse(c.args[0]) == "MSG_NEWKEYS"]
+    # ... and nothing but NEWKEYS: every further type in that expectation is a message an attacker may insert in front of
+    # the peer's NEWKEYS (and once it has consumed the expectation, anything may follow)
+    allexp = [c for (n, c) in fa.nodes_with_call(name="self._expect_packet")]
+    only = all([unparse(a) for a in c.args] == ["MSG_NEWKEYS"] and not c.keywords for c in allexp)
+    chk.ob("R3.only-newkeys-expected-after-our-newkeys", "Transport._activate_outbound", bool(allexp) and only, ao.loc,
+           "expectations armed here: %s" % [", ".join(unparse(a) for a in c.args) for c in allexp])
     chk.ob("R3.handshake-step-arms-next", "Transport._activate_outbound", bool(en) and fa.exit_dominated(guard_nodes=en), ao.loc,
            "always expects NEWKEYS next")
     nk = prog.func("Transport._negotiate_keys")
